@@ -766,8 +766,19 @@ func (s *vgcState) canon(kind string, errGC bool) string {
 	return out
 }
 
+// equalContent: same blobs, same top-level entries, same resolvable digests among those that have a blob (a child
+// entry whose blob is missing answers 404 whether it is listed or not; C06.gc_idempotent is stated the same way)
 func (s *vgcState) equalContent(o *vgcState) bool {
-	return s.canon("mem", false) == o.canon("mem", false)
+	strip := func(x *vgcState) *vgcState {
+		y := &vgcState{blobs: x.blobs, ents: x.ents}
+		for _, c := range x.found {
+			if x.exists(c[0]) {
+				y.found = append(y.found, c)
+			}
+		}
+		return y
+	}
+	return strip(s).canon("mem", false) == strip(o).canon("mem", false)
 }
 
 // vgcOrderDependent: the outcome of a collection on this state may depend on the order of the index entries: two
